@@ -178,7 +178,9 @@ func (d *Device) handleABSEvent(ie *input.InputEvent) {
 		}
 	}
 
-	if d.ccLearning && !(value < -0.5 || value > 0.5) {
+	// the learning gate only concerns what a host in MIDI-learn mode sees (controllers, pitch bend); emulated keys
+	// and actions must still see the axis return to centre, otherwise their note / state stays on
+	if d.ccLearning && (analog.MappingType == config.AnalogCC || analog.MappingType == config.AnalogPitchBend) && !(value < -0.5 || value > 0.5) {
 		return
 	}
 
